@@ -4,6 +4,7 @@ C05 — No whitespace is ever injected into inline content.
 import HtmlVerif.Spec.Flat
 import HtmlVerif.Lemmas.Infix
 import HtmlVerif.Lemmas.Render
+import HtmlVerif.Lemmas.WsSites
 
 namespace HtmlVerif.C05
 open HtmlVerif
@@ -305,5 +306,138 @@ example : VisDesc ⟨[], [], [], []⟩ (.text ['x']) true
     (.tag ['d'] true [] (.cons (.tag ['s'] false [] (.cons (.text ['x']) .nil)) .nil)) :=
   .deeper (h := .tag ['s'] false [] (.cons (.text ['x']) .nil)) (by simp [Nodes.visible, Node.isMeta])
     (.child (by simp [Nodes.visible, Node.isMeta]))
+
+end HtmlVerif.C05
+
+
+/-! ### clause 4: where layout whitespace can appear -/
+namespace HtmlVerif.C05
+open HtmlVerif
+
+theorem rightJustified_tag (cfg : Cfg) (name : Str) (ws : Bool) (attrs : Attrs) (kids : Nodes) (i : Nat) (e : Str)
+    (X : List Piece) : rightJustified ((Node.tag name ws attrs kids).pieces cfg i e ++ X) = ws := by
+  simp only [Node.pieces]
+  by_cases h0 : kids.visible.isEmpty = true
+  · by_cases hv : name ∈ cfg.void <;> simp [h0, hv]
+  · simp only [h0]
+    cases h1 : inlineChild? kids.visible <;> simp
+
+mutual
+  /-- scanning the pieces of a tag never finds an unjustified whitespace run, and ends next to this tag's
+      closing (or self-closed opening) tag; the tag's own leading indentation must be justified by the
+      context (`left`), by the tag being a block tag, or be empty -/
+  theorem wsSites_tag (cfg : Cfg) (t : Node) (i : Nat) (e : Str) (left : Bool) (R : List Piece) :
+      ∀ name ws attrs kids, t = .tag name ws attrs kids →
+      (left || ws || (indentStr i).isEmpty) = true →
+      wsSitesOk left (t.pieces cfg i e ++ R) = wsSitesOk ws R := by
+    intro name ws attrs kids ht hpre
+    subst ht
+    have hk := wsSites_kids cfg kids (i + 1) e
+    have hlead : ((indentStr i).isEmpty || left || ws) = true := by
+      revert hpre; cases left <;> cases ws <;> cases (indentStr i).isEmpty <;> simp
+    simp only [Node.pieces]
+    by_cases h0 : kids.visible.isEmpty = true
+    · by_cases hv : name ∈ cfg.void <;> simp [h0, hv, wsSitesOk_wsP, hlead]
+    · simp only [h0]
+      cases h1 : inlineChild? kids.visible with
+      | some c => simp [wsSitesOk_wsP, hlead]
+      | none =>
+        cases ws with
+        | false =>
+          have := hk true false (!cfg.noesc.contains name) false (Piece.cls name false :: R) (by simp)
+          simp only [List.contains_eq_mem] at this
+          simp [wsSitesOk_wsP, hlead, this]
+        | true =>
+          have := hk true true (!cfg.noesc.contains name) true
+            (wsP (e ++ indentStr i) ++ Piece.cls name true :: R) (by simp)
+          simp only [List.contains_eq_mem] at this
+          simp [wsSitesOk_wsP, this]
+  theorem wsSites_kids (cfg : Cfg) (ks : Nodes) (i : Nat) (e : Str) (first prevWs esc left : Bool)
+      (R : List Piece) (hl : prevWs = true → left = true) :
+      wsSitesOk left (ks.piecesKids cfg i e first prevWs esc ++ R) = wsSitesOk (ks.finalL left) R := by
+    cases ks with
+    | nil => simp [Nodes.piecesKids, Nodes.finalL]
+    | cons h t =>
+      cases h with
+      | mnode _ => simpa [Nodes.piecesKids, Nodes.finalL] using wsSites_kids cfg t i e first prevWs esc left R hl
+      | dep _ _ _ => simpa [Nodes.piecesKids, Nodes.finalL] using wsSites_kids cfg t i e first prevWs esc left R hl
+      | tag n w a k =>
+        have hrest := wsSites_kids cfg t i e false w esc w R (fun h => h)
+        have hT1 := wsSites_tag cfg (.tag n w a k) i e left (t.piecesKids cfg i e false w esc ++ R) n w a k rfl
+        have hT0 := wsSites_tag cfg (.tag n w a k) 0 [] left (t.piecesKids cfg i e false w esc ++ R) n w a k rfl
+          (by simp)
+        have hrj := rightJustified_tag cfg n w a k i e (t.piecesKids cfg i e false w esc ++ R)
+        simp only [Nodes.piecesKids, Nodes.finalL]
+        cases prevWs with
+        | true =>
+          have hL : left = true := hl rfl
+          subst hL
+          cases first <;> simp [wsSitesOk_wsP, hT1, hrest]
+        | false =>
+          cases w with
+          | true => cases first <;> simp [wsSitesOk_wsP, hT1, hrest, hrj]
+          | false => cases first <;> simp [hT0, hrest]
+      | text s =>
+        have hrest := wsSites_kids cfg t i e false false esc false R (by simp)
+        simp only [Nodes.piecesKids, Nodes.finalL]
+        cases prevWs with
+        | true =>
+          have hL : left = true := hl rfl
+          subst hL
+          cases first <;> simp [wsSitesOk_wsP, hrest]
+        | false => cases first <;> simp [hrest]
+      | html s =>
+        have hrest := wsSites_kids cfg t i e false false esc false R (by simp)
+        simp only [Nodes.piecesKids, Nodes.finalL]
+        cases prevWs with
+        | true =>
+          have hL : left = true := hl rfl
+          subst hL
+          cases first <;> simp [wsSitesOk_wsP, hrest]
+        | false => cases first <;> simp [hrest]
+      | robj s =>
+        have hrest := wsSites_kids cfg t i e false false esc false R (by simp)
+        simp only [Nodes.piecesKids, Nodes.finalL]
+        cases prevWs with
+        | true =>
+          have hL : left = true := hl rfl
+          subst hL
+          cases first <;> simp [wsSitesOk_wsP, hrest]
+        | false => cases first <;> simp [hrest]
+      | tobjL rh c =>
+        have hrest := wsSites_kids cfg t i e false false esc false R (by simp)
+        simp only [Nodes.piecesKids, Nodes.finalL]
+        cases prevWs with
+        | true =>
+          have hL : left = true := hl rfl
+          subst hL
+          cases first <;> simp [wsSitesOk_wsP, hrest]
+        | false => cases first <;> simp [hrest]
+      | tobj1 rh c =>
+        have hrest := wsSites_kids cfg t i e false false esc false R (by simp)
+        simp only [Nodes.piecesKids, Nodes.finalL]
+        cases prevWs with
+        | true =>
+          have hL : left = true := hl rfl
+          subst hL
+          cases first <;> simp [wsSitesOk_wsP, hrest]
+        | false => cases first <;> simp [hrest]
+end
+
+/-- within a rendered tag, every maximal run of layout whitespace (after the caller's own leading
+    indentation) is immediately after or immediately before the opening or closing tag of a
+    whitespace-enabled tag — for every tree (block-inside-inline nestings included), indent and eol.
+    Together with `render_eq_pieces` (the pieces realise to exactly the rendered string) this is a
+    statement about the output. -/
+theorem C05_ws_sites (cfg : Cfg) (name : Str) (ws : Bool) (attrs : Attrs) (kids : Nodes) (i : Nat) (e : Str) :
+    wsSitesOk true ((Node.tag name ws attrs kids).pieces cfg i e) = true := by
+  have := wsSites_tag cfg (.tag name ws attrs kids) i e true [] name ws attrs kids rfl (by simp)
+  simpa [wsSitesOk] using this
+
+/-- the same for a top-level list -/
+theorem C05_ws_sites_list (cfg : Cfg) (ks : Nodes) (i : Nat) (e : Str) (aw esc : Bool) :
+    wsSitesOk true (ks.piecesKids cfg i e true aw esc) = true := by
+  have := wsSites_kids cfg ks i e true aw esc true [] (fun _ => rfl)
+  simpa [wsSitesOk] using this
 
 end HtmlVerif.C05
